@@ -131,6 +131,16 @@ def r_chain(E):
                     backwards = isinstance(loop.iter, ast.Call) and norm(loop.iter.func) == "reversed" or "[::-1]" in norm(loop.iter)
                     ok = bool(backwards)
         if ok is None:
+            # dict idiom: `{x.id: x for x in chain}.values()` / dict.fromkeys(chain) keep each key at the position of its
+            # FIRST insertion (the object kept may be the last one, its place in the order is the first one's) —
+            # unless the chain is walked backwards and the result reversed again
+            for n in ast.walk(fn):
+                if isinstance(n, ast.DictComp) or (isinstance(n, ast.Call) and norm(n.func) in ("dict.fromkeys", "OrderedDict.fromkeys")):
+                    src = n.generators[0].iter if isinstance(n, ast.DictComp) else (n.args[0] if n.args else None)
+                    backwards = src is not None and (
+                        (isinstance(src, ast.Call) and norm(src.func) == "reversed") or "[::-1]" in norm(src))
+                    ok = bool(backwards)
+        if ok is None:
             res.undecided.append(f"{q}: de-duplication test not recognised")
         elif not ok:
             res.findings.append(Finding(
@@ -551,7 +561,29 @@ def r_val_auth(E):
                     "R-VAL-AUTH", f"{k} refusal",
                     f"the {k} branch of the allowed-values check no longer raises on a value that is not in the allowed "
                     f"list", rel, r.lineno, fn.name))
-    res.floor = 3
+    # the controlling / dependent values are those of the object being validated: read with getattr(self, …) and used
+    # as they are (not as the fallback of a lookup in some other table, whose keys — attribute names — do not say
+    # which object they belong to)
+    for k in ("conditional_list_values", "attributes_with_depending_values"):
+        s_ = cases.get(k)
+        if s_ is None:
+            continue
+        res.instances += 1
+        gets = [c for c in _calls(s_) if isinstance(c.func, ast.Name) and c.func.id == "getattr" and c.args
+                and norm(c.args[0]) == params[0]]
+        if not gets:
+            res.findings.append(Finding("R-VAL-AUTH", f"{k} reads the object", f"the {k} branch no longer reads the other "
+                                        f"attribute's value from the object being validated", rel, s_.lineno, fn.name))
+        for g in gets:
+            par = getattr(g, "_parent", None)
+            if isinstance(par, ast.Call) and par is not g and not (isinstance(par.func, ast.Name) and par.func.id in (
+                    "isinstance", "str", "repr", "print")):
+                res.findings.append(Finding(
+                    "R-VAL-AUTH", f"{k} value read through {norm(par.func)[:40]}",
+                    f"in the {k} branch the other attribute's value is `{norm(par)[:90]}`: the object's own value is only "
+                    f"a fallback, the first source is keyed by attribute name alone — in an update that touches two "
+                    f"objects, one object's pending value is used to validate the other's", rel, g.lineno, fn.name))
+    res.floor = 5
     return res
 
 
@@ -1281,7 +1313,30 @@ def r_noop(E):
                 f"links, reverse look-ups and footprints keep the old list)", rel, bad[0].lineno, fn.name))
         else:
             res.undecided.append(f"parse_changes_list: skip test `{norm(bad[0])[:60]}` not recognised")
-    res.floor = 1
+    # the `==` of that test is, for list links, the built-in list's: element-wise, order and multiplicity sensitive.
+    # An __eq__ of the link-list class that compares sets / sorted ids / lengths makes the same test coarser
+    res.instances += 1
+    for cn in ("ListLinkedToModelingObj",):
+        if cn not in pm.classes:
+            res.undecided.append(f"{cn} vanished")
+            continue
+        for k in pm.mro(cn):
+            if k in ("ObjectLinkedToModelingObj", "ModelingObject") or k not in pm.classes:
+                continue
+            for f in pm.own_methods(k):
+                if f.name in ("__eq__", "__ne__"):
+                    coarse = any(isinstance(x, (ast.Set, ast.SetComp)) or (isinstance(x, ast.Call) and norm(x.func) in (
+                        "set", "frozenset", "sorted", "len", "any", "all", "Counter")) for x in ast.walk(f))
+                    if coarse:
+                        res.findings.append(Finding(
+                            "R-NOOP", f"{k}.{f.name} coarser than list equality",
+                            f"{k}.{f.name} compares link lists through sets / sorted ids / lengths: ModelingUpdate's "
+                            f"`old_value == new_value` no-op test then holds for lists that differ in order or "
+                            f"multiplicity, and such edits (`uj.uj_steps = [s3, s1, s2]`, `step.jobs = [j1, j1]`, appending "
+                            f"an element already present) are silently dropped", pm.classes[k].path, f.lineno, f"{k}.{f.name}"))
+                    else:
+                        res.undecided.append(f"{k}.{f.name}: equality of link lists overridden, semantics not recognised")
+    res.floor = 2
     return res
 
 
